@@ -327,25 +327,29 @@ impl ParallelPipeline {
         let num_operators = operators.len();
         let mut current_chunk = chunk;
 
+        let mut keep_going = true;
         for i in 0..num_operators {
             let is_last = i == num_operators - 1;
 
             if is_last {
-                return operators[i].push(current_chunk, sink);
+                let more = operators[i].push(current_chunk, sink)?;
+                return Ok(keep_going && more);
             }
 
             // Intermediate: collect output
             let mut collector = ChunkCollector::new();
             let continue_processing = operators[i].push(current_chunk, &mut collector)?;
 
-            if !continue_processing || collector.is_empty() {
-                return Ok(continue_processing);
+            if collector.is_empty() {
+                return Ok(keep_going && continue_processing);
             }
+            // An operator that asks to stop has still emitted rows: hand them on, then stop.
+            keep_going = keep_going && continue_processing;
 
             current_chunk = collector.into_single_chunk();
         }
 
-        Ok(true)
+        Ok(keep_going)
     }
 
     /// Finalizes all operators in the chain.
@@ -389,24 +393,29 @@ impl ParallelPipeline {
         let num_operators = operators.len();
         let mut current_chunk = chunk;
 
+        let mut keep_going = true;
         for i in start..num_operators {
             let is_last = i == num_operators - 1;
 
             if is_last {
-                return operators[i].push(current_chunk, sink);
+                let more = operators[i].push(current_chunk, sink)?;
+                return Ok(keep_going && more);
             }
 
             let mut collector = ChunkCollector::new();
             let continue_processing = operators[i].push(current_chunk, &mut collector)?;
 
-            if !continue_processing || collector.is_empty() {
-                return Ok(continue_processing);
+            if collector.is_empty() {
+                return Ok(keep_going && continue_processing);
             }
+            // An operator that asks to stop has still emitted rows: hand them on, then stop.
+            keep_going = keep_going && continue_processing;
 
             current_chunk = collector.into_single_chunk();
         }
 
-        sink.consume(current_chunk)
+        let more = sink.consume(current_chunk)?;
+        Ok(keep_going && more)
     }
 }
 
